@@ -16,6 +16,7 @@ DECIDED = ("R1 all 794 key words (768 piece + 16 castling + 8 en-passant + 2 tur
            "R5 the repetition table's identity hasher receives exactly one write_u64 and finish() returns it; R6 the hash literal of Board::standard() equals the xor of the "
            "piece keys of RawBoard::standard().")
 DECIDED = DECIDED + ' R2 fold form: the new hash read as a term is old ^ fold(squares of diff, 0 or old, |h, pos| h ^ KEY[color][pos][piece]), in Board::xor or in a private helper.'
+DECIDED = DECIDED + ' R4 also: Board::eq compares each of those fields between self and other and is true exactly when all agree (evaluated over all field-equality combinations). R7 RawBoard::set refuses every occupied square and stores on an empty one (evaluated over empty + 12 (colour, piece) occupancy cases).'
 NOT_DECIDED = ("that make-move calls the xor helper for the right squares (that is C02's behaviour); equality of incremental and from-scratch hashes on actual histories follows "
                "from R2 only under that premise and is not itself decided")
 EXPLANATION = ("Key tables are constant data (K1). Update sites are read as per-path effect summaries by K4 propagation (loops by the generic-iteration abstraction) and the "
@@ -480,9 +481,70 @@ def r4(ctx):
     bad = [lf for lf in lv if any(v == 0 and t[0] in ("eq", "bin") for t, v in lf.cond) and lf.ret != T.FALSE]
     ctx.ob("Eq is a conjunction", not bad and len(lv) >= 2, f"<Board as PartialEq>::eq returns non-false on a path where a field comparison failed: {[T.show_cond(l.cond)[:120] for l in bad]}",
            site=eb.get("def_span"), sample={"paths": len(lv)})
+    # ... and each comparison is between the same field of the two operands (`self.x == self.x` compares nothing), true exactly when all agree
+    okq, why = k2.structural_eq(P, ek, "chess_movegen::Board", only=want)
+    ctx.ob("Eq compares both operands", okq, f"<Board as PartialEq>::eq is not `all of {sorted(want)} equal between self and other`: {why}", site=eb.get("def_span"), sample=why)
     for adt in ("chess_movegen::raw::RawBoard", "chess_movegen::castle_rights::CastleRights", "chess_movegen::OptionalFile"):
         b2 = P.body(f"<{adt} as core::cmp::PartialEq>::eq")
         ctx.ob(f"{adt.rsplit('::',1)[1]} Eq derived", bool(b2.get("derived")), f"PartialEq for {adt} is hand-written", site=b2.get("def_span"))
+
+
+@rule("C04.R7", "RawBoard::set refuses every occupied square (the colour sets and the piece sets stay partitions)")
+def r7_set(ctx):
+    """place() pairs the hash update with set(); set() is what keeps a square in at most one colour set and one piece set. A guard that looks at
+    the mover's colour only, or at one piece set only, lets a second piece onto an occupied square: equal boards with different hashes after a
+    later remove, and move generation with more entries than the list holds."""
+    P = ctx.P
+    k = "chess_movegen::raw::RawBoard::set"
+    CONT, SU = "chess_bitboard::BitBoard::contains", "chess_movegen::raw::RawBoard::set_unchecked"
+    ctx.used_body(k)
+    eng = T.Engine(P, opaque={CONT, SU})
+    eng.trace_calls = {SU}
+    lv = eng.tabulate(k)
+    slf, pos = ("param", 0, "self"), ("param", 3, "a3")
+
+    def members(bbterm):
+        w = bbterm[3][0] if bbterm[0] == "adt" else ("field", bbterm, "0")
+        out, work = set(), [w]
+        while work:
+            x = work.pop()
+            if x[0] == "bin" and x[1] == "BitOr":
+                work += [x[2], x[3]]
+            elif x[0] == "field" and x[2] in ("0", 0) and x[1][0] == "index" and x[1][1][0] == "field" and x[1][1][1] == ("obj", slf) and x[1][1][2] in ("colors", "pieces") and T.is_const(x[1][2]):
+                out.add((x[1][1][2], x[1][2][1]))
+            else:
+                return None
+        return out
+    bad = []
+    cases = [None] + [(c, p_) for c in range(2) for p_ in range(6)]
+    for case in cases:
+        inset = set() if case is None else {("colors", case[0]), ("pieces", case[1])}
+        hits = []
+        for lf in lv:
+            ok = True
+            for t_, v in lf.cond:
+                if t_[0] == "app" and t_[1] == CONT and t_[2][1] == pos:
+                    ms = members(t_[2][0])
+                    if ms is None:
+                        ok = None
+                        break
+                    if bool(ms & inset) != bool(v):
+                        ok = False
+                        break
+                else:
+                    ok = None
+                    break
+            if ok is None:
+                bad.append((str(case), f"a path of set() tests {T.show_cond(lf.cond)[:140]}: not membership of the square in constant colour / piece sets"))
+                break
+            if ok:
+                hits.append(lf)
+        else:
+            want_err = case is not None
+            good = len(hits) == 1 and (hits[0].ret[0] == "adt" and hits[0].ret[2] == ("Err" if want_err else "Ok")) and (want_err == (not any(tr[0] == "call" for tr in hits[0].trace)))
+            if not good:
+                bad.append((str(case), f"square {'held by (colour, piece) ' + str(case) if case else 'empty'}: set() answers {[T.show(h.ret)[:40] for h in hits]} (stores: {[len([1 for tr in h.trace if tr[0] == 'call']) for h in hits]})"))
+    ctx.bulk("RawBoard::set on every occupancy case", len(cases), bad, "set() stores a piece on an occupied square, or refuses an empty one", sample={"cases": len(cases)})
 
 
 @rule("C04.R5", "identity hasher contract: exactly one write_u64, finish returns it, no other write reaches it")
